@@ -175,6 +175,31 @@ fn real(path: &str, a: Option<i64>, b: Option<i64>, off: i32) -> String {
     match r { Ok(s) => s, Err(m) => format!("panic:{}", m) }
 }
 
+/// `s4h evtxr --file <path>` in a child process: does the real reader return within `ms` milliseconds?
+fn returns_in_time(path: &str, ms: u64) -> bool {
+    let exe = match std::env::current_exe() { Ok(e) => e, Err(_) => return true };
+    let mut child = match std::process::Command::new(exe).args(["evtxr", "--file", path])
+        .stdout(std::process::Stdio::null()).stderr(std::process::Stdio::null()).spawn() {
+        Ok(c) => c,
+        Err(_) => return true,
+    };
+    let t0 = std::time::Instant::now();
+    loop {
+        match child.try_wait() {
+            Ok(Some(_)) => return true,
+            Ok(None) => {
+                if t0.elapsed().as_millis() as u64 > ms {
+                    let _ = child.kill();
+                    let _ = child.wait();
+                    return false;
+                }
+                std::thread::sleep(std::time::Duration::from_millis(2));
+            }
+            Err(_) => return true,
+        }
+    }
+}
+
 /// FILETIME ticks (100 ns since 1601) -> ns since 1970
 fn ft_to_ns(ft: u64) -> i64 { ((ft as i128 - 116_444_736_000_000_000i128) * 100) as i64 }
 
@@ -314,11 +339,16 @@ pub fn run(opts: &Opts, out: &mut dyn Write) {
     let mut case = 0usize;
     let mut emitted = 0usize;
     let mut skipped = 0usize;
+    let mut hung = 0usize;
     let verbose = opts.extra.iter().any(|x| x == "--tags");
     while emitted < opts.n {
         let b = build(&mut rng, &base, case);
         case += 1;
         std::fs::write(&path, &b.data).unwrap();
+        // known finding F38: some damaged files make the evtx crate's chunk iterator loop for ever while it allocates without bound (a record
+        // whose size field reads 0 where the iterator happens to stand). Nothing in-process can stop that, so every file is first read by a
+        // CHILD process under a time limit; a file on which the reader does not return is skipped (counted), never read in this process.
+        if !returns_in_time(&ps, 8000) { hung += 1; continue; }
         let ps2 = ps.clone();
         let f = match guarded(move || indep(&ps2)) { Ok(f) => f, Err(_) => { skipped += 1; continue; } };
         let mut tss: Vec<i64> = vec![];
@@ -350,6 +380,7 @@ pub fn run(opts: &Opts, out: &mut dyn Write) {
         }
     }
     let _ = std::fs::remove_file(&path);
+    if hung > 0 { eprintln!("evtxr: {} files skipped (the evtx parser did not return within 8 s: known finding F38)", hung); }
     if skipped > 0 { eprintln!("evtxr: {} files skipped (the independent parse panicked)", skipped); }
 }
 
